@@ -21,7 +21,12 @@ def one(name):
         if not harness.apply_patch(root, os.path.join(d, "patch.diff")):
             return name, {"apply": "failed"}
         res = {}
-        for pid in PIDS:
+        mp = os.path.join(d, "meta.json")
+        meta = json.load(open(mp)) if os.path.exists(mp) else {}
+        # a breaking change that a later repair made harmless FOR ITS OWN PROPERTY is not a refactoring: it is only
+        # required to be silent there (it may well change what another property talks about)
+        pids = [name.split("-")[0]] if meta.get("superseded") else PIDS
+        for pid in pids:
             code, out = harness.run_check(pid, root, os.path.join(root, "ev"))
             if code != 0:
                 res[pid] = (code, [l.strip()[:230] for l in out.splitlines() if l.strip().startswith(("violated", "ANALYSIS-ERROR"))][:2])
